@@ -3,6 +3,7 @@
    modes evaluate a property monitor (`Verif.Spec.*`) on an observation stream. -/
 import Verif.Drv.Tok
 import Verif.Drv.Transient
+import Verif.Drv.Core
 
 partial def lineLoop (h : IO.FS.Stream) (out : IO.FS.Stream) (f : String → Option String) : IO Unit := do
   let line ← h.getLine
@@ -26,5 +27,6 @@ def main (args : List String) : IO UInt32 := do
   match args with
   | ["tok"] => lineLoop stdin stdout Verif.Drv.Tok.step; return 0
   | ["transient"] => stateLoop stdin stdout Verif.Drv.Transient.stepModel none; return 0
+  | ["core"] => stateLoop stdin stdout Verif.Drv.Core.stepLine {}; return 0
   | ["c18mon"] => stateLoop stdin stdout Verif.Drv.Transient.stepMon {}; return 0
   | _ => IO.eprintln "usage: drv tok|transient|c18mon"; return 2
